@@ -322,6 +322,26 @@ struct Run {
     counter: usize,
     /// a fault has been armed and the next add_version is the call it is meant for
     armed: bool,
+    /// git commits are currently backdated beyond the backend's retention age (gitwrap.sh)
+    old: bool,
+}
+
+fn backdate_file() -> Option<PathBuf> {
+    std::env::var("GITFAULT_CTL").ok().map(|c| PathBuf::from(format!("{c}.backdate")))
+}
+
+fn set_backdate(on: bool) {
+    if let Some(f) = backdate_file() {
+        if on {
+            let now = std::time::SystemTime::now()
+                .duration_since(std::time::UNIX_EPOCH)
+                .unwrap()
+                .as_secs();
+            std::fs::write(&f, format!("{}", now - 400 * 24 * 3600)).unwrap();
+        } else {
+            let _ = std::fs::remove_file(&f);
+        }
+    }
 }
 
 fn body_bytes(class: &str, n: usize) -> Vec<u8> {
@@ -417,6 +437,11 @@ impl Run {
         let a = s["a"].as_str().unwrap();
         let h = s["h"].as_str().unwrap_or("h1").to_string();
         match a {
+            "Epoch" => {
+                self.old = false;
+                set_backdate(false);
+                self.lines.push(json!({"a":"Epoch","old":false}));
+            }
             "Reopen" => {
                 if let Some(Some(srv)) = self.handles.remove(&h) {
                     if matches!(self.backend, Backend::Http { .. }) {
@@ -448,14 +473,14 @@ impl Run {
                     Ok(Ok((AddVersionResult::Ok(v), _))) => {
                         let n = self.id_of(v);
                         self.learn(parent, v);
-                        self.lines.push(json!({"a":"AV","h":h,"parent":p,"body":label,"faulted":faulted,"res":"ok","ver":n}));
+                        self.lines.push(json!({"a":"AV","h":h,"parent":p,"body":label,"faulted":faulted,"res":"ok","ver":n,"old":self.old}));
                     }
                     Ok(Ok((AddVersionResult::ExpectedParentVersion(v), _))) => {
                         let n = self.id_of(v);
-                        self.lines.push(json!({"a":"AV","h":h,"parent":p,"body":label,"faulted":faulted,"res":"expected","ver":n}));
+                        self.lines.push(json!({"a":"AV","h":h,"parent":p,"body":label,"faulted":faulted,"res":"expected","ver":n,"old":self.old}));
                     }
                     Ok(Err(e)) => {
-                        self.lines.push(json!({"a":"AV","h":h,"parent":p,"body":label,"faulted":faulted,"res":"error","ver":0,"msg":format!("{e:#}")}));
+                        self.lines.push(json!({"a":"AV","h":h,"parent":p,"body":label,"faulted":faulted,"res":"error","ver":0,"old":self.old,"msg":format!("{e:#}")}));
                         // the handle may hold stale cached state after a failure: a real client
                         // would be restarted
                         if s["reopen_after_error"].as_bool().unwrap_or(true) {
@@ -466,7 +491,7 @@ impl Run {
                         // an injected stop is a failed call after which the client is restarted;
                         // any other panic is a result no specification action produces
                         let r = if p2.contains("injected stop") { "error" } else { "panic" };
-                        self.lines.push(json!({"a":"AV","h":h,"parent":p,"body":label,"faulted":faulted,"res":r,"ver":0,"msg":p2}));
+                        self.lines.push(json!({"a":"AV","h":h,"parent":p,"body":label,"faulted":faulted,"res":r,"ver":0,"old":self.old,"msg":p2}));
                         self.handles.insert(h.clone(), None);
                     }
                 }
@@ -731,7 +756,14 @@ async fn run_behaviour(b: &Value, dir: &Path, git: Option<PathBuf>) -> Vec<Value
         lines: vec![json!({"a":"Reset","id":b["id"].clone(),"backend":kind})],
         counter: 0,
         armed: false,
+        old: false,
     };
+    set_backdate(false);
+    if b["old_epoch"].as_bool().unwrap_or(false) {
+        run.old = true;
+        set_backdate(true);
+        run.lines.push(json!({"a":"Epoch","old":true}));
+    }
     for s in b["steps"].as_array().unwrap() {
         run.step(s).await;
     }
@@ -754,7 +786,12 @@ async fn run_behaviour(b: &Value, dir: &Path, git: Option<PathBuf>) -> Vec<Value
                 }
                 Ok(GetVersionResult::NoSuchVersion) => {
                     run.lines.push(json!({"a":"GC","h":"walker","parent":p,"res":"none","ver":0,"body":"-","parent_ok":true}));
-                    break;
+                    // a backend that discards versions covered by its snapshot: go on from the
+                    // child the harness knows was accepted
+                    match run.accepted.iter().find(|v| v.0 == parent && !v.1.is_nil()) {
+                        Some(v) if b["old_epoch"].as_bool().unwrap_or(false) => parent = v.1,
+                        _ => break,
+                    }
                 }
                 Err(e) => {
                     run.lines.push(json!({"a":"GC","h":"walker","parent":p,"res":"error","ver":0,"body":"-","parent_ok":true,"msg":format!("{e:#}"),
@@ -777,6 +814,7 @@ async fn run_behaviour(b: &Value, dir: &Path, git: Option<PathBuf>) -> Vec<Value
         }
     }
     drop(run.handles);
+    set_backdate(false);
     let _ = std::fs::remove_dir_all(dir);
     run.lines
 }
